@@ -233,6 +233,23 @@ def tree_pre(shape_sk, names, pos=0):
     return pre, pos, allc
 
 
+def tree_pin(shape_sk, names, pos=0, out=None):
+    """name -> value that pins every coordinate of the skeleton: the i-th coordinate of *each* fiber is i (ascending inside every fiber,
+    inside any shape >= the widest fiber).  Used for the cheaper quick-tier counterparts of obligations whose fully symbolic form is slow."""
+    out = {} if out is None else out
+    if isinstance(shape_sk, int):
+        for i, c in enumerate(names[pos:pos + shape_sk]):
+            out[c] = i
+        return out, pos + 2 * shape_sk
+    n = len(shape_sk)
+    for i, c in enumerate(names[pos:pos + n]):
+        out[c] = i
+    pos += n
+    for s in shape_sk:
+        _, pos = tree_pin(s, names, pos, out)
+    return out, pos
+
+
 def tree_depth(shape_sk):
     if isinstance(shape_sk, int):
         return 1
